@@ -210,6 +210,17 @@ func EvaluateAlignment(fromDomain string, record *Record, results []authres.Resu
 }
 
 func isAligned(fromDomain, authDomain string, mode AlignmentMode) bool {
+	// The identifiers come in different spellings: the header domain is
+	// converted to A-labels, DKIM uses them as well, but the SPF identities
+	// are taken from the envelope as the client wrote them (U-labels when
+	// SMTPUTF8 is used). Compare the A-label forms.
+	if ascii, err := fromDomainIDNA.ToASCII(fromDomain); err == nil {
+		fromDomain = ascii
+	}
+	if ascii, err := fromDomainIDNA.ToASCII(authDomain); err == nil {
+		authDomain = ascii
+	}
+
 	if mode == dmarc.AlignmentStrict {
 		return strings.EqualFold(fromDomain, authDomain)
 	}
